@@ -51,12 +51,12 @@ theorem sedov_energy (p : SedovShock.P) (k : ℕ) (A : Admissible p k) (f g h : 
     rcases A.hk with h | h | h <;> exact ⟨k - 1, by omega⟩
   -- the post-shock state in terms of R = r2 p t
   have hrho2 : SedovShock.rho2 p t = (p.gamma + 1) / (p.gamma - 1) * (p.rho0 * SedovShock.r2 p t ^ (-p.omega)) := by
-    simp only [epv_tree, epv_cond, not_le.mpr ht, if_false, epv_leaf]
+    epv_semi_tree
   have hu2 : SedovShock.u2 p t = 2 * (2 / (p.geometry + 2 - p.omega) * SedovShock.r2 p t / t) / (p.gamma + 1) := by
-    simp only [epv_tree, epv_cond, not_le.mpr ht, if_false, epv_leaf]
+    epv_semi_tree
   have hp2 : SedovShock.p2 p t = 2 * (p.rho0 * SedovShock.r2 p t ^ (-p.omega))
       * (2 / (p.geometry + 2 - p.omega) * SedovShock.r2 p t / t) ^ 2 / (p.gamma + 1) := by
-    simp only [epv_tree, epv_cond, not_le.mpr ht, if_false, epv_leaf]
+    epv_semi_tree
   unfold EnergyConserved energyBehind density velocity pressure
   rw [hrho2, hu2, hp2]
   have hpc := pow_combine (SedovShock.r2 p t) p.omega k hRpos
@@ -150,7 +150,7 @@ theorem sedov_mass_iff_partial (p : SedovShock.P) (k : ℕ) (A : Admissible p k)
   have hk1 : k - 1 + 1 = k := by rcases A.hk with h | h | h <;> omega
   have hk1r : ((k - 1 : ℕ) : ℝ) + 1 = (k : ℝ) := by exact_mod_cast hk1
   have hrho2 : SedovShock.rho2 p t = (p.gamma + 1) / (p.gamma - 1) * (p.rho0 * SedovShock.r2 p t ^ (-p.omega)) := by
-    simp only [epv_tree, epv_cond, not_le.mpr ht, if_false, epv_leaf]
+    epv_semi_tree
   unfold MassConserved massBehind density ambientDensity
   rw [hrho2]
   have hamb := integral_ambient p.rho0 p.omega (SedovShock.r2 p t) (k - 1) hRpos (by rw [hk1r]; exact A.omegak)
